@@ -4,8 +4,10 @@ segmentations, and corruptions."""
 from vlib import hexs
 
 KEYS = ["file", "Title", "Artist", "OK", "ACK", "list_OK", "binary", "changed", "a", "Last-Modified", "x_y", "size", "type",
-        "Id", "Pos", "duration", "volume", "B"]
-VALUES = ["", "x", "OK", "list_OK", "ACK [5@0] {} x", "binary: 3", "3", "18446744073709551616", "a: b", " ", "  lead", "trail ",
+        "Id", "Pos", "duration", "volume", "B",
+        # proper prefixes of the keywords an earlier alternative of the grammar is still waiting for
+        "l", "b", "O", "A", "li", "lis", "list", "list_", "list_O", "bi", "bin", "binar", "AC", "o", "L"]
+VALUES = ["", "", "x", "OK", "list_OK", "ACK [5@0] {} x", "binary: 3", "3", "18446744073709551616", "a: b", " ", "  lead", "trail ",
           "äö", "日本語", "\U0001F600", "\x00nul", "a\x00b", "tab\there", "\r", "foo/bar.mp3", "0", "1", "-1", "3x", ": ", "OK MPD 0.1"]
 PAYLOADS = [b"", b"a", b"OK\n", b"OK\nACK\n\x00\xff", b"\n", b"\n\n", b"list_OK\n", b"binary: 2\nab\n", b"\xff\xfe", b"\x00" * 5,
             b"ACK [1@0] {} x\n", b"foo: bar\n"]
@@ -180,3 +182,69 @@ def corrupt(rng, s):
 def random_bytes(rng, n):
     alphabet = b"OK\nlist_ACK [5@0] {}binary: 0123456789abc\xff\x00 :\n\n"
     return bytes(rng.choice(alphabet) if rng.random() < 0.8 else rng.randrange(256) for _ in range(n))
+
+
+# ---------------------------------------------------------------- shared hard cases
+
+# characters chosen for what a sloppy conversion does to them: low byte equal to an ASCII special (" ' \\ LF space TAB NUL),
+# case-folding to ASCII (KELVIN SIGN, LONG S, dotted I), Unicode numerics and letters outside ASCII, Latin-1 letters whose
+# UTF-8 bytes look alphabetic as Latin-1, fullwidth forms, combining marks, 4-byte planes
+TRICKY_CHARS = ["\u0422", "\u0427", "\u2022", "\u0127", "\u015c", "\u4e5c", "\u010a", "\u0120", "\u0109", "\u0100", "\U00010022", "\U0001f35c",
+                "\u212a", "\u017f", "\u0130", "\u0131", "\u00b2", "\u00bd", "\u0663", "\uff11", "\u2167", "\u00b5", "\u00aa", "\u00ba",
+                "\u00ea", "\u00f5", "\u0435", "\u043a", "\u042a", "\uff21", "\uff3f", "e\u0301", "\u00df", "\u00e9", "\u65e5", "\U0001f600"]
+
+
+def numeric_variants(n):
+    """Texts a lenient integer parser might accept for n although the protocol grammar is [0-9]+."""
+    d = str(n)
+    return ["+" + d, "-" + d, " " + d, d + " ", "0" + d, "00" + d, "0x" + d, d + ".0", d + "e0", "+0" + d, "\u0661".encode().decode() + d, "", "+", "-0", d + "_0", "\t" + d]
+
+
+def big_response(kind, sz):
+    if kind == "lines":
+        line = b"file: some/path/name.flac\n"
+        return line * (sz // len(line)) + b"OK\n"
+    if kind == "value":
+        return b"sticker: lyrics=" + b"l" * sz + b"\nOK\n"
+    if kind == "payload":
+        return b"binary: " + str(sz).encode() + b"\n" + bytes((i * 11 + 3) % 256 for i in range(sz)) + b"\nOK\n"
+    if kind == "sized":
+        return b"size: " + str(sz).encode() + b"\nbinary: " + str(sz).encode() + b"\n" + b"\n" * sz + b"\nOK\n"
+    return b"a: b\nOK\n"
+
+
+def pipelined_long_streams(rng, n_random):
+    """R1 larger than the receive buffer followed by R2 whose first component is larger than what stays buffered (bulk reads make
+    R2's head arrive with R1's tail), and responses > 8 KiB with > 4 KiB of pipelined responses behind them."""
+    kinds = ["lines", "value", "payload", "sized", "small"]
+    combos = [("lines", 5043, "value", 12000), ("value", 4097, "value", 4096), ("payload", 8192, "payload", 8192),
+              ("lines", 9000, "payload", 20000), ("value", 6000, "lines", 13000), ("sized", 5000, "value", 9000),
+              ("payload", 9000, "lines", 6000), ("value", 17000, "lines", 4200), ("lines", 8300, "small", 0)]
+    for _ in range(n_random):
+        combos.append((rng.choice(kinds), rng.choice([4095, 4096, 4097, 5000, 8191, 8193, 12000]),
+                       rng.choice(kinds), rng.choice([4095, 4096, 4097, 6000, 8192, 12000, 17000])))
+    out = []
+    for k1, s1, k2, s2 in combos:
+        tail = rng.choice([b"", b"x: y\nOK\n", big_response("value", 5000), big_response("lines", 4500) + b"z: 1\nOK\n"])
+        out.append(big_response(k1, s1) + big_response(k2, s2) + tail)
+    return out
+
+
+def exact_fill_streams():
+    """Streams (after the greeting) whose total length, or whose length up to a cut, is exactly the buffer capacity or one of
+    its doublings, so that the last read before the end of the stream fills the buffer exactly.  -> [(stream, note)]"""
+    out = []
+    for cap in (4096, 8192, 16384):
+        one = b"k: " + b"v" * (cap - 3 - 1 - 3) + b"\nOK\n"                       # one response of exactly cap bytes
+        assert len(one) == cap
+        out.append((one, f"one response of exactly {cap} bytes"))
+        part = b"a: b\nOK\n" + b"key: " + b"w" * (cap - 8 - 5)                       # a response and a partial line, cap bytes
+        assert len(part) == cap
+        out.append((part, f"response + partial line, {cap} bytes"))
+        two = b"a: b\nOK\n" + b"k: " + b"v" * (cap - 8 - 3 - 1 - 3) + b"\nOK\n"
+        assert len(two) == cap
+        out.append((two, f"two responses, {cap} bytes"))
+        pl = cap - len(b"binary: NNNN\n\nOK\n")
+        bn = b"binary: " + str(pl).encode().rjust(4, b"0") + b"\n" + bytes((i * 5) % 256 for i in range(pl)) + b"\nOK\n"
+        out.append((bn, f"binary response, {len(bn)} bytes"))
+    return out
